@@ -321,7 +321,7 @@ impl<T: Qcow2IoOps> Qcow2Dev<T> {
             }
 
             //commit all populated caches and make them visible
-            let evicted = cache.commit_wmap();
+            let evicted = cache.commit_wmap(&key);
             drop(slice);
             Ok((entry, evicted))
         } else {
